@@ -54,8 +54,10 @@ for it in range(N):
             root.update(idx[d])
             for _ in range(int(rs.randint(1, 5))):
                 s = strats[int(rs.randint(len(strats)))]; k = str(rs.choice(decl[s.name]))
-                op = str(rs.choice(["adjust", "fund", "rebalance", "close", "transact", "update", "flatten"]))
-                if op == "adjust": s.adjust(float(rs.choice([5e4, -2e4]))) if s is root else s.adjust(float(rs.choice([-100.0, 50.0])), flow=False)
+                op = str(rs.choice(["adjust", "fund", "rebalance", "close", "transact", "update", "flatten", "wash"]))
+                if op == "wash":            # an inflow and a loss of the same size: the value does not move, the index has to
+                    x_ = float(rs.choice([40.0, 100.0])); root.adjust(x_); root.adjust(-x_, flow=False)
+                elif op == "adjust": s.adjust(float(rs.choice([5e4, -2e4]))) if s is root else s.adjust(float(rs.choice([-100.0, 50.0])), flow=False)
                 elif op == "fund": s.allocate(float(rs.choice([2e4, -1e4])), k)
                 elif op == "rebalance": s.rebalance(float(rs.choice([0.0, 0.1, 0.3, -0.1])), k)
                 elif op == "close" and k in s.children: s.close(k)
